@@ -634,4 +634,9 @@ def phrase_verdict(case, tool_files, drv, vp, mp, pfx):
         d = check_phrase_output(tool_files[name], must[k], case["fmt"], case["in_sections"])
         if d is not None:
             return "file %r: %s" % (name, d), "tool"
+    # exact: the model of BuildGraph's graph (no hashing, no lazy search) predicts the files byte for byte
+    graph = drv.files(pfx, "graph", nout)
+    for k, name in enumerate(names):
+        if graph.get(k) != tool_files[name]:
+            return "file %r differs from the search-graph model (%d vs %d bytes)" % (name, len(tool_files[name]), len(graph.get(k, b""))), "graph"
     return None, None
